@@ -73,4 +73,4 @@ Definition m_calcChunkSize (k : ikind) (s e chunk numLaunched : Z) (one : bool) 
         Some (cs, Z.quot (W k (W k (range_size k s1 e1 + cs) - 1)) cs)
     end
   else if chunk =? kmax k then None
-  else Some (chunk, Z.quot (W k (W k (range_size k s e + chunk) - 1)) chunk).
+  else Some (chunk, W k (Z.quot (range_size k s e) chunk + W k (if negb (Z.rem (range_size k s e) chunk =? 0) then 1 else 0))).
